@@ -15,6 +15,7 @@ import vlib
 
 PROP = "C08"
 TSAN_SOURCES = ["C08_tsan_loop.cc", "C08_tsan_conn.cc", "C08_tsan_base.cc"]
+TSAN_WRAP = ["__tsan_read8", "__tsan_write4"]       # forced schedules (harness/C08_tsan.h)
 FAILFAST_OPS = ["loop", "updateChannel", "removeChannel", "hasChannel", "pool_start", "pool_getNextLoop",
                 "pool_getLoopForHash", "pool_getAllLoops", "conn_connectEstablished", "conn_connectDestroyed",
                 "server_start", "server_dtor"]
@@ -27,17 +28,25 @@ TSAN_ENV = {"TSAN_OPTIONS": "halt_on_error=0 exitcode=66 report_thread_leaks=0 r
 
 # ------------------------------------------------------------------ Coq's report
 def eval_report():
-    """Run coq/C08_Eval.v (vm_compute of render_report) and parse its records."""
-    with vlib.Lock("coq"):
-        # another check (another VERIF_REPO) may have regenerated Gen_C08.v since chk.prove(): regenerate under the lock
-        vlib.sh([sys.executable, os.path.join(vlib.ROOT, "lib/gen_C08.py")], env={"VERIF_REPO": vlib.REPO}, timeout=600)
+    """Regenerate the summaries and run coq/C08_Eval.v (vm_compute of render_report) in a PRIVATE directory - no global Coq
+    lock, so it can run while chk.prove() builds the proofs - and parse its records.  C08_Eval imports only C08_Model and
+    Gen_C08, which are compiled here from the same sources the proof build uses."""
+    import shutil, tempfile
+    os.makedirs(os.path.join(vlib.WORK, "C08"), exist_ok=True)
+    tmp = tempfile.mkdtemp(prefix="eval_", dir=os.path.join(vlib.WORK, "C08"))
+    try:
+        rc, out = vlib.sh([sys.executable, os.path.join(vlib.ROOT, "lib/gen_C08.py")],
+                          env={"VERIF_REPO": vlib.REPO, "C08_OUT_DIR": tmp}, timeout=600)
         try:
-            eval_report.summary = json.load(open(os.path.join(vlib.WORK, "C08", "summary.json")))
+            eval_report.summary = json.load(open(os.path.join(tmp, "summary.json")))
         except Exception:
             eval_report.summary = None
-        rc, out = vlib.sh(["bash", "-c", "ulimit -s unlimited 2>/dev/null; cd %s && for f in C08_Model Gen_C08; do "
-                           "[ $f.vo -nt $f.v ] || coqc -Q . Muduo $f.v || exit 1; done; coqc -Q . Muduo C08_Eval.v" % vlib.COQ],
-                          timeout=900)
+        for f in ("C08_Model.v", "C08_Eval.v"):
+            shutil.copy(os.path.join(vlib.COQ, f), tmp)
+        rc, out = vlib.sh(["bash", "-c", "ulimit -s unlimited 2>/dev/null; cd %s && coqc -Q . Muduo C08_Model.v && "
+                           "coqc -Q . Muduo Gen_C08.v && coqc -Q . Muduo C08_Eval.v" % tmp], timeout=900)
+    finally:
+        shutil.rmtree(tmp, ignore_errors=True)
     recs = {"V": [], "O": [], "E": [], "N": []}
     if rc != 0:
         return None, out[-2000:]
@@ -51,6 +60,8 @@ def eval_report():
 
 def load_summary():
     p = os.path.join(vlib.WORK, "C08", "summary.json")
+    if not os.path.exists(p):
+        vlib.sh([sys.executable, os.path.join(vlib.ROOT, "lib/gen_C08.py")], env={"VERIF_REPO": vlib.REPO}, timeout=600)
     return json.load(open(p))
 
 
@@ -97,6 +108,7 @@ def table_class(cls, field):
     return _TABLE_CLASS.get((cls, field), "?")
 
 
+BORROW_KINDS = ("rawthis", "borrowed-view", "borrowed-ptr", "borrowed-ref")
 _TABLE_CONTRACT = {}
 
 
@@ -160,6 +172,8 @@ def viol_key(recs, v):
         return "%s::%s@%s:destroy|%s" % (cls, what, site, "/".join(thread_roots(cls)) or "-")
     if kind == "useafter":
         return "%s::%s@%s:useafter|~%s" % (cls, what, site, cls)
+    if kind in BORROW_KINDS:
+        return "%s::%s@%s:%s" % (cls, what, site, kind)
     return "%s::%s@%s:%s" % (cls, what or "-", site, kind)
 
 
@@ -188,6 +202,21 @@ def viol_text(recs, v, summary):
                 (cls, what, site, where, "/".join(thread_roots(cls)) or "?",
                  "no join() on any path" if jg is None else
                  "join() is skipped on the strength of %s, which that thread itself writes" % ",".join(jg)))
+    if kind in BORROW_KINDS:
+        where = ""
+        try:
+            md = summary["classes"][cls]["methods"][meth]
+            want = {"rawthis": ("this", "member"), "borrowed-view": ("view",), "borrowed-ptr": ("ptr",), "borrowed-ref": ("ref",)}[kind]
+            pa = [a for a in md["postargs"] if a[1] == what and a[2] in want and not a[4]]
+            where = " at " + ",".join(sorted(set("%s:%s" % (a[5], a[6]) for a in pa))) + \
+                    " (bound argument of type %s)" % "; ".join(sorted(set(a[3] for a in pa)))
+        except (KeyError, IndexError):
+            pass
+        if kind == "rawthis":
+            return ("%s::%s posts %s bound to the raw `this`%s on its cross-thread branch; %s is shared_ptr-managed: the last owner "
+                    "can destroy the object before the loop thread runs the functor" % (cls, site, what, where, cls))
+        return ("%s::%s posts %s with a BORROWED argument%s on its cross-thread branch: the functor runs later on the loop thread "
+                "and reads memory the caller may already have rewritten or freed (an owned copy is required)" % (cls, site, what, where))
     if kind == "useafter":
         flags = [w[2] for w in (l.split("#")[0].split() for l in open(os.path.join(vlib.ROOT, "lib", "C08_table.txt")))
                  if len(w) >= 3 and w[0] == "exitflag" and w[1] == cls]
@@ -286,6 +315,28 @@ def map_report(rep, idx):
     return common, per
 
 
+FRAME_METHOD = re.compile(r"muduo::(?:net::)?(?:detail::)?(\w+)::(~?\w+)\(")
+
+
+def lifetime_methods(rep):
+    """a report about memory that is gone: heap-use-after-free, or a race one side of which is the deallocation.
+    -> set of (class, method) over the in-repo frames of all stacks, or None if it is not such a report."""
+    is_lt = "use-after-free" in rep["kind"] or bool(re.search(r"#0 (operator delete|free|cfree)\b", rep["text"]))
+    for what, frames in rep["stacks"][:2]:
+        # ... or one side is the object's destructor tearing its members down
+        if any(re.search(r"::~\w+\(\)", fn) for (fn, fl, ln) in frames):
+            is_lt = True
+    if not is_lt:
+        return None
+    res = set()
+    for what, frames in rep["stacks"]:
+        for (fn, fl, ln) in frames:
+            m = FRAME_METHOD.search(fn)
+            if m:
+                res.add((m.group(1), m.group(2)))
+    return res
+
+
 def fail_tail(se, so):
     """what ended a scenario abnormally: the FATAL / assertion / signal lines of its output, then its last lines."""
     txt = (se or "") + "\n" + (so or "")
@@ -331,8 +382,14 @@ def load_cases(paths):
 # ------------------------------------------------------------------ the check
 def run(chk, replay=None):
     tier = chk.tier
+    # the two driver builds (TSan / ASan libraries of muduo + harness) do not depend on the proof: start them now so that a
+    # fresh checkout pays max(proof build, driver build) instead of their sum
+    bg = ThreadPoolExecutor(max_workers=3)
+    fut_tsan = bg.submit(vlib.build_driver, "C08_tsan", TSAN_SOURCES, "tsan", ("base", "net"), (), (), TSAN_WRAP)
+    fut_ff = bg.submit(vlib.build_driver, "C08_failfast", ["C08_failfast.cc"], "asan")
+    fut_eval = bg.submit(eval_report)
     pr = chk.prove()
-    recs, evalout = eval_report()
+    recs, evalout = fut_eval.result()
     summary = getattr(eval_report, "summary", None) or load_summary()
     idx = line_index(summary)
     known = dict((k["key"], k["text"]) for k in vlib.known_findings() if k["property"] == PROP)
@@ -352,8 +409,9 @@ def run(chk, replay=None):
         return None
 
     # ---- builds
-    tsan = vlib.build_driver("C08_tsan", TSAN_SOURCES, variant="tsan")
-    ff = vlib.build_driver("C08_failfast", ["C08_failfast.cc"], variant="asan")
+    tsan = fut_tsan.result()
+    ff = fut_ff.result()
+    bg.shutdown(wait=False)
     rc, out, err, _ = run_one(tsan, ["--list"], {})
     all_scen = [s for s in out.split() if s]
 
@@ -423,6 +481,12 @@ def run(chk, replay=None):
         if md is None or md.get("bodies", 0) < nb:
             named_missing.append("%s::%s (%s of %d bodies)" % (c, m, "no summary" if md is None else md.get("bodies"), nb))
 
+    # borrow / raw-this violations of the static side: (class, posted callee) -> key
+    BV = {}
+    for v in recs["V"]:
+        if v[3] in BORROW_KINDS:
+            BV.setdefault((v[0], v[2]), viol_key(recs, v))
+
     # ---- TSan suite
     t1 = time.time()
     results = []
@@ -448,6 +512,16 @@ def run(chk, replay=None):
         if ("scenario %s done" % name) not in so:
             scen_fail.append((name, rc, fail_tail(se, so)))
         for rep in reps:
+            lt = lifetime_methods(rep)
+            hits = sorted(cm for cm in (lt or ()) if cm in BV)
+            if hits:
+                # the functor of a borrow / raw-this violation touching memory that is gone
+                for cm in hits:
+                    d = reports.setdefault(("~", cm[0], cm[1]), {"scenario": name, "rep": rep, "methods": set(), "count": 0, "all": []})
+                    d["count"] += 1
+                    d["all"].append((name, rep, set([cm[1]])))
+                    scen_members.setdefault(name, []).append((("~", cm[0], cm[1]), set([cm[1]])))
+                continue
             common, per = map_report(rep, idx)
             methods = set(m for hit in per for (c, f, m, k) in hit)
             if rep["kind"] != "data race" or not common:
@@ -463,7 +537,7 @@ def run(chk, replay=None):
                 d["all"].append((name, rep, ms))
                 d["count"] += 1
     chk.cov["tsan"] = {"scenarios": len(set(n for n, _ in scen)), "runs": len(results), "wall_s": round(t2 - t1, 1),
-                       "reports": sorted("%s::%s" % k if k[0] != "?" else k[1] for k in reports)}
+                       "reports": sorted("%s::%s" % (k[-2], k[-1]) if k[0] != "?" else k[1] for k in reports)}
 
     def explain_abort(name, tail):
         """A scenario that died in the double-close assertions is the functional consequence of the recorded race on
@@ -471,7 +545,12 @@ def run(chk, replay=None):
         in forceClose/forceCloseWithDelay/shutdown overwrites the loop thread's kDisconnected (peer closed meanwhile), so
         the queued ...InLoop functor runs handleClose a second time.  Explained only if this very run also showed the
         race (TSan report on state_ with the operation's store) and that store is a recorded finding."""
-        if not re.search(r"Assertion `(n == 1|state_ == kConnected \|\| state_ == kDisconnecting)' failed", tail):
+        # a run in which a functor already ran on a destroyed object (heap-use-after-free explained by a recorded
+        # raw-this / borrowed-capture key) may go on to crash: same finding
+        for (cf, ms) in scen_members.get(name, []):
+            if cf[0] == "~" and BV.get((cf[1], cf[2])) in known:
+                return BV[(cf[1], cf[2])]
+        if not re.search(r"Assertion `(n == 1|state_ == kConnected \|\| state_ == kDisconnecting|state_ == kDisconnected)' failed", tail):
             return None
         for (cf, ms) in scen_members.get(name, []):
             if cf != ("TcpConnection", "state_"):
@@ -486,6 +565,8 @@ def run(chk, replay=None):
     unexplained = []
     for (name, rc, tail) in scen_fail:
         k = explain_abort(name, tail)
+        if not k and any(cf[0] == "~" for (cf, ms) in scen_members.get(name, [])):
+            continue            # crash after a use-after-free of an unrecorded raw-this / borrow violation: reported below with it
         if k:
             chk.notes.append("scenario %s aborted in the double-close assertion (%s): lost update of the recorded race %s"
                              % (name, tail.strip().split("\n")[-1][-160:], k))
@@ -497,6 +578,12 @@ def run(chk, replay=None):
     for cf, d in sorted(reports.items(), key=lambda kv: str(kv[0])):
         if cf[0] == "?":
             tsan_bad.append((cf, d, None))
+            continue
+        if cf[0] == "~":
+            k = BV.get((cf[1], cf[2]))
+            if k in known:
+                tsan_known.append((cf, d, k))
+            # else: an unrecorded static violation, reported below with this report as its witness
             continue
         k = known_for_member(cf[0], cf[1], d["methods"], d.get("fns", ()))
         if k:
@@ -528,7 +615,7 @@ def run(chk, replay=None):
 
     # static violations: try to attach the TSan witness on the same member
     def witness_for(cls, field, site=None):
-        d = reports.get((cls, field))
+        d = reports.get((cls, field)) or reports.get(("~", cls, field))
         if d and site:
             for (name, rep, ms) in d.get("all", []):
                 if site.split("/")[-1] in ms or site.split("/")[0] in ms:
@@ -553,7 +640,7 @@ def run(chk, replay=None):
             need -= set(reports)
     for (k, v) in static_bad:
         text = viol_text(recs, v, summary)
-        w = witness_for(v[0], v[2], v[1]) if v[3] in ("R", "W", "destroy", "useafter") else None
+        w = witness_for(v[0], v[2], v[1]) if v[3] in ("R", "W", "destroy", "useafter") + BORROW_KINDS else None
         if w:
             p = chk.write_replay("static_%s.case" % re.sub(r"\W+", "_", k)[:80],
                                  replay_text([text, "discipline_ok no longer holds / unrecorded violation; witness below",
@@ -587,7 +674,7 @@ def run(chk, replay=None):
             chk.known(k, "key=%s %s [TSan: %s]" % (k, known[k], d["scenario"]))
     static_members = set((v[0], v[2]) for (k, v) in static_bad)
     for (cf, d, _) in tsan_bad:
-        if cf in static_members:
+        if cf in static_members or (cf[0] == "~" and (cf[1], cf[2]) in static_members):
             continue            # already reported with this witness
         what = ("%s::%s between %s" % (cf[0], cf[1], "/".join(sorted(d["methods"])))) if cf[0] != "?" else cf[1]
         p = chk.write_replay("tsan_%s.case" % re.sub(r"\W+", "_", d["scenario"] + "_" + str(cf[1]))[:80],
@@ -632,7 +719,7 @@ def run(chk, replay=None):
                        "worker threads), resp. the confined operation was reached from a foreign thread; distinct by scenario / operation "
                        "name.  TSan runs find failing inputs, they are not proof-level coverage.")
     for (cf, d, k) in (tsan_known + [(a, b, None) for (a, b, _) in tsan_bad])[:4]:
-        chk.sample({"scenario": d["scenario"], "member": "%s::%s" % cf if cf[0] != "?" else cf[1], "known_key": k,
+        chk.sample({"scenario": d["scenario"], "member": "%s::%s" % (cf[-2], cf[-1]) if cf[0] != "?" else cf[1], "known_key": k,
                     "report": short_report(d["rep"], 4).split("\n")[:12]})
     chk.sample({"failfast": [(op, rc) for (op, rc, so, se, secs) in ffres]})
     chk.trusted("translator lib/gen_C08.py + clang 14 JSON AST (access summaries; each entry echoes file:line), lib/C08_table.txt "
